@@ -1,0 +1,14 @@
+//go:build verif
+
+// Contracts for the verification machinery under /verif (contract-based deductive
+// verification). This file is comment-only, is excluded from every normal build by the
+// "verif" build tag, and declares nothing. See /verif/DESIGN.md §4.
+
+package containedresource
+
+// Unwrap yields the resource held by the oneof, or nil when none is set; it writes nothing.
+// (Its one type assertion - the message held by the oneof is a fhir.Resource - is a fact of
+// the generated schema and is reported as not covered.)
+//@ func Unwrap(cr) (res)
+//@   ensures res == nil || validItem(res)
+//@   assigns nothing
